@@ -28,7 +28,7 @@ func (p *prng) intn(n int) int {
 	return int(p.next() % uint64(n))
 }
 func (p *prng) chance(num, den int) bool { return p.intn(den) < num }
-func pick[T any](p *prng, xs []T) T     { return xs[p.intn(len(xs))] }
+func pick[T any](p *prng, xs []T) T      { return xs[p.intn(len(xs))] }
 
 // stats collects the measured input distribution for the evidence file.
 type stats struct {
@@ -41,7 +41,7 @@ type stats struct {
 	Extra    map[string]any `json:"extra,omitempty"`
 }
 
-func newStats() *stats { return &stats{Counts: map[string]int{}, Extra: map[string]any{}} }
+func newStats() *stats        { return &stats{Counts: map[string]int{}, Extra: map[string]any{}} }
 func (s *stats) hit(k string) { s.Counts[k]++ }
 func (s *stats) write(dir string) {
 	b, _ := json.MarshalIndent(s, "", " ")
